@@ -1,3 +1,3 @@
-import NxModel.Bytes
-/-! driver stub for C14 (replaced when the property's model lands) -/
-def main : IO Unit := IO.println "stub C14"
+import NxModel.Nex.SchemaDriver
+/-! driver for C14: same line protocol as C13 (schema interpreter + `rmccfg`) -/
+def main : IO Unit := Nx.runState Nx.Schema.Drv.initEnv Nx.Schema.Drv.step
